@@ -8,7 +8,7 @@
            content) under Read/Write/WriteString/WriteAt/Seek/Truncate, and under ReadAt exactly
            when unionFile.go's ReadAt does not seek the base (constant union_readat_seeks_base). *)
 From AF Require Import Lib.Bytes Lib.Path Lib.Ops Gen.Consts Model.MemFile Model.MemFs Model.Union Model.Cow
-  Model.Cache Model.Stack Proofs.MemFsBasics Proofs.PathProof Proofs.MemFileProof.
+  Model.Cache Model.Stack Proofs.MemFsBasics Proofs.MemBelow Proofs.PathProof Proofs.MemFileProof.
 Local Open Scope Z_scope.
 
 (* the values of the switches (Gen/Consts.v, regenerated from the Go source) the proofs below depend on *)
@@ -902,14 +902,16 @@ Qed.
 Definition wf_map (s : mst) : Prop := forall k v, lookup s k = Some v -> (v < length (mheap s))%nat.
 Definition parent_key (key : str) : str := normalize_path (clean (fst (path_split key))).
 
-Lemma create_ok_new s name p :
+Lemma create_ok_new s name p pn :
   wf_map s -> lookup s (normalize_path name) = None -> lookup s (parent_key (normalize_path name)) = Some p ->
+  get_node s p = Some pn -> ndir pn = true ->
   CreateOK s name.
 Proof.
-  intros Hwf Hl Hp. set (key := normalize_path name) in *.
+  intros Hwf Hl Hp Hpn Hpd. set (key := normalize_path name) in *.
   assert (Hne : parent_key key <> key) by (intros Hq; rewrite Hq in Hp; congruence).
   assert (Hpf : p <> length (mheap s)) by (pose proof (Hwf _ _ Hp); lia).
-  unfold CreateOK. rewrite m_step_bump. cbn [m_step_raw]. unfold m_create. fold key. rewrite Hl.
+  unfold CreateOK. rewrite m_step_bump. cbn [m_step_raw]. unfold m_create. fold key.
+  rewrite Hl, (below_file_parent_dir s key p pn Hp Hpn Hpd).
   unfold m_create_node, alloc_node. cbn [fst snd].
   set (f := length (mheap s)) in *.
   set (s2 := set_data _ _).
